@@ -209,8 +209,9 @@ func RunC15(env *sim.Env) {
 		c15Targets, c15RefDirs = lp(c15Targets), lp(c15RefDirs)
 		env.Stat("probe:names_longer_than_128_bytes", 1)
 	}
-	// (the last list holds an "extension" that begins with a slash: directory index files)
-	c.exts = [][]string{{"", ".jet", ".html.jet", ".jet.html"}, {"", ".jet"}, {".jet"}, {"", ".html"}, {"", ".jet", "/index.jet"}}[t.Choose(5)]
+	// (the last lists hold "extensions" that begin with a slash: directory index files, a default one
+	// level up - also spelled with dot segments, which the Set has to clean like any other path)
+	c.exts = [][]string{{"", ".jet", ".html.jet", ".jet.html"}, {"", ".jet"}, {".jet"}, {"", ".html"}, {"", ".jet", "/index.jet"}, {"", ".jet", "/./index.jet"}, {"", ".jet", "/../default.jet"}}[t.Choose(7)]
 	useOS := t.Choose(8) == 7
 	var scratch string
 	if useOS {
